@@ -8,6 +8,7 @@ import (
 	"go/token"
 	"go/types"
 	"os"
+	"runtime/debug"
 	"sort"
 	"strings"
 	"sync"
@@ -285,6 +286,11 @@ func (e *Env) RunPath(s *smt.Solver, fn *ssa.Function, prefix []Decision, replay
 		for _, d := range ctx.taken {
 			if d.Kind == 'n' && strings.HasPrefix(d.Tag, "choice:") {
 				res.Choices = append(res.Choices, d.Alt)
+			}
+		}
+		if r != nil && os.Getenv("GOSYM_DEBUG") != "" {
+			if _, isAbort := r.(engineAbort); !isAbort {
+				fmt.Fprintf(os.Stderr, "panic: %v\n%s\n", r, debug.Stack())
 			}
 		}
 		if r == nil {
